@@ -101,6 +101,18 @@ pub fn poscoh(l: &[Sx]) -> String {
                     chk(matches!(&got, Ok(Value::String(g)) if *g == want), "copy clips to the string");
                 }
             }
+            // letter case: lowercase / uppercase are the full Unicode mappings of the text, same_text compares the lowercase values
+            let lo = s.to_lowercase();
+            let up = s.to_uppercase();
+            chk(matches!(call("lowercase", &[v.clone()]), Ok(Value::String(g)) if g == lo), "lowercase is the Unicode lowercase of the text");
+            chk(matches!(call("uppercase", &[v.clone()]), Ok(Value::String(g)) if g == up), "uppercase is the Unicode uppercase of the text");
+            let swapped: String = chars.iter().map(|c| if c.is_lowercase() { c.to_uppercase().collect::<String>() } else { c.to_lowercase().collect::<String>() }).collect();
+            let tail_changed = format!("{}x", s);
+            for other in [s.clone(), lo.clone(), up.clone(), swapped, tail_changed] {
+                let want = lo == other.to_lowercase();
+                chk(matches!(call("same_text", &[v.clone(), st(&other)]), Ok(Value::Boolean(g)) if g == want), "same_text(a,b) iff lowercase(a) = lowercase(b)");
+                chk(matches!(call("same_text", &[st(&other), v.clone()]), Ok(Value::Boolean(g)) if g == want), "same_text is symmetric");
+            }
         }
         Value::Array(a) => {
             let n = a.len();
@@ -430,9 +442,8 @@ pub fn ord3(l: &[Sx]) -> String {
     if le(&a, &b) && le(&b, &c) {
         chk(le(&a, &c), "ordering is transitive");
     }
-    if opr(Equal, &a, &b) == Some(true) && opr(Equal, &b, &c) == Some(true) {
-        chk(opr(Equal, &a, &c) == Some(true), "= is transitive");
-    }
+    // (transitivity of `=` is NOT part of the property - only its symmetry is: `=` coerces Boolean<->Number and numeric String<->Number but not
+    //  Boolean<->String, so false = 0 and 0 = '-0' while false <> '-0'; that law was checked here once and removed as demanding more than stated)
     chk(matches!(call("between", &[b.clone(), a.clone(), c.clone()]), Ok(Value::Boolean(v)) if v == (le(&a, &b) && le(&b, &c))), "between(v,lo,hi) iff lo<=v and v<=hi");
     let all = [a.clone(), b.clone(), c.clone()];
     for (name, is_max) in [("max", true), ("min", false)] {
